@@ -61,6 +61,11 @@ var c14Shapes = []c14Shape{
 	{name: "invalid-right-pattern", n: 2, invalid: true, query: `sum(count_over_time({}[3s])) + sum(count_over_time({} | pattern "<a><b>" [3s]))`, params: logqlengine.EvalParams{Start: otelstorage.Timestamp(4 * sec), End: otelstorage.Timestamp(4 * sec), Limit: -1}},
 	{name: "invalid-right-template", n: 2, invalid: true, query: `sum(count_over_time({}[3s])) / sum(count_over_time({} | line_format "{{ .a | nosuchfunc }}" [3s]))`, params: logqlengine.EvalParams{Start: otelstorage.Timestamp(2 * sec), End: otelstorage.Timestamp(4 * sec), Step: time.Second, Limit: -1}},
 	{name: "invalid-right-unsupported", n: 1, invalid: true, query: `sum(count_over_time({}[3s])) * sum(absent_over_time({}[3s]))`, params: logqlengine.EvalParams{Start: otelstorage.Timestamp(4 * sec), End: otelstorage.Timestamp(4 * sec), Limit: -1}},
+	// invalid stages in pipelines of several stages, after a valid stage of the same kind, and in the shape of a no-op
+	{name: "invalid-ip-empty", n: 2, invalid: true, query: `{} |= ip("")`, params: logqlengine.EvalParams{Start: 0, End: otelstorage.Timestamp(10 * sec), Step: time.Second, Limit: -1}},
+	{name: "invalid-second-of-two", n: 2, invalid: true, query: `{} |= "m" | line_format "{{ .a | nosuchfunc }}"`, params: logqlengine.EvalParams{Start: 0, End: otelstorage.Timestamp(10 * sec), Step: time.Second, Limit: -1}},
+	{name: "invalid-first-of-three", n: 1, invalid: true, query: `count_over_time({} | pattern "<a><b>" | json |= "m" [3s])`, params: logqlengine.EvalParams{Start: otelstorage.Timestamp(4 * sec), End: otelstorage.Timestamp(4 * sec), Limit: -1}},
+	{name: "invalid-repeated-json", n: 2, invalid: true, query: `{} | json | json x="a..["`, params: logqlengine.EvalParams{Start: 0, End: otelstorage.Timestamp(10 * sec), Step: time.Second, Limit: -1}},
 	{name: "invalid-log-jsonpath", n: 2, invalid: true, query: `{} | json x="a..["`, params: logqlengine.EvalParams{Start: 0, End: otelstorage.Timestamp(10 * sec), Step: time.Second, Limit: -1}},
 	{name: "setop-or-2", n: 2, query: `sum by (container) (count_over_time({container="n0"}[5s])) or sum by (container) (count_over_time({container="n1"}[5s]))`, params: logqlengine.EvalParams{Start: otelstorage.Timestamp(4 * sec), End: otelstorage.Timestamp(4 * sec), Limit: -1}},
 	{name: "setop-unless-2", n: 2, query: `sum(count_over_time({container="n0"}[5s])) unless sum(count_over_time({container="n1"} |= "nothing" [5s]))`, params: logqlengine.EvalParams{Start: otelstorage.Timestamp(2 * sec), End: otelstorage.Timestamp(4 * sec), Step: time.Second, Limit: -1}},
